@@ -434,7 +434,9 @@ pub fn replay<E: Engine>(engine: Arc<E>, path: &str) -> i32 {
 // ------------------------------------------------------------------ driver
 
 struct Agg {
-    outcomes: BTreeMap<u64, (RunOutcome, Value)>,
+    /// per run: outcome (without its trace), scenario (kept for the first runs and for runs with a
+    /// violation only: 400 000 retained scenarios and traces were 40 GB), scenario digest
+    outcomes: BTreeMap<u64, (RunOutcome, Value, u64)>,
 }
 
 pub fn run_engine<E: Engine>(engine: Arc<E>, opts: &Options) -> i32 {
@@ -498,7 +500,12 @@ pub fn run_engine<E: Engine>(engine: Arc<E>, opts: &Options) -> i32 {
                 // let lower-numbered runs finish, stop handing out higher ones
                 stop.fetch_min(i, Ordering::SeqCst);
             }
-            agg.lock().unwrap().outcomes.insert(i as u64, (o, scv));
+            let mut o = o;
+            // the trace of a replay file comes from the re-execution during minimisation
+            o.trace = Vec::new();
+            let scd = Digest::of_value(&scv);
+            let scv = if !o.violations.is_empty() || i < 256 { scv } else { Value::Null };
+            agg.lock().unwrap().outcomes.insert(i as u64, (o, scv, scd));
         }));
     }
     for h in handles {
@@ -517,7 +524,7 @@ pub fn run_engine<E: Engine>(engine: Arc<E>, opts: &Options) -> i32 {
     let mut digest_lines = String::new();
     let mut first_violation: Option<(u64, Violation, Value)> = None;
     let mut contiguous = 0u64;
-    for (i, (o, scv)) in &agg.outcomes {
+    for (i, (o, scv, scd)) in &agg.outcomes {
         if *i == contiguous {
             contiguous += 1;
         }
@@ -535,9 +542,9 @@ pub fn run_engine<E: Engine>(engine: Arc<E>, opts: &Options) -> i32 {
             distinct.insert(*d);
         }
         if o.nontrivial {
-            distinct_nontrivial.insert(Digest::of_value(scv));
+            distinct_nontrivial.insert(*scd);
         }
-        if samples.len() < 3 && o.nontrivial {
+        if samples.len() < 3 && o.nontrivial && !scv.is_null() {
             samples.push(json!({"run": i, "seed": sub_seed(opts.seed, ename, *i), "scenario": scv, "digest": format!("{:016x}", o.digest), "steps": o.steps}));
         }
         digest_lines.push_str(&format!("{} {:016x}\n", i, o.digest));
@@ -560,7 +567,7 @@ pub fn run_engine<E: Engine>(engine: Arc<E>, opts: &Options) -> i32 {
     let mut n_viol = 0u64;
     let mut known_hit: BTreeSet<String> = BTreeSet::new();
     let mut unknown: Vec<(u64, Violation, Value)> = Vec::new();
-    for (i, (o, scv)) in &agg.outcomes {
+    for (i, (o, scv, _)) in &agg.outcomes {
         for v in &o.violations {
             n_viol += 1;
             if known.iter().any(|k| k.signature == v.signature) {
